@@ -122,6 +122,8 @@ def check_design(ck, d, variants, stream, sim_variants, shape_sig=None):
   ck.hist('orders_per_design', len(variants)); ck.hist('stream', stream)
   for n in d.netinfo: ck.hist('writer_kind', n['kind'])
   ck.hist('field_or_slice_objects', min(desc['sub_objects'] // 2 * 2, 16))
+  for t in d.tags: ck.hist('directed_shape', t)
+  ck.hist('slices_written_as_slice_of_slice', min(len(d.nest), 8))
 
 def run(ck):
   rng = ck.rng
@@ -145,7 +147,7 @@ def run(ck):
     if variants is None:
       variants = [d.variant_orders(rng, identity=(k == 0)) for k in range(K)]
     sims = {0, rng.randrange(len(variants))}
-    check_design(ck, d, variants, 'legal+d1' if any(l == 'd1' for l in d.labels) else 'legal', sims)
+    check_design(ck, d, variants, 'legal', sims)
   ck.extra_cov['orders'] = f'{K} per design' + ('' if quick else '; every per-component statement order for each fifth design with at most 120 orders')
 
 def replay(ck, data):
